@@ -165,6 +165,39 @@ def rng(ty):
 
 _BOUNDS = {}          # name of a fresh symbolic integer -> (lo, hi), for the Interp currently running
 _BCACHE = {}
+MULF = z3.Function('mul', z3.IntSort(), z3.IntSort(), z3.IntSort())
+
+
+def sym_mul(x, y, it=None):
+    """product of two integers; symbolic x symbolic is an application of the uninterpreted function `mul` (argument
+    order canonical) with the interval of the product as its only axiom: implementation and oracle share the term, so no
+    verdict depends on the solver doing non-linear arithmetic"""
+    if isinstance(x, int) or isinstance(y, int):
+        return x * y
+    sx, sy = z3.simplify(x), z3.simplify(y)
+    if z3.is_int_value(sx):
+        return sx.as_long() * y
+    if z3.is_int_value(sy):
+        return x * sy.as_long()
+    if str(x) > str(y):
+        x, y = y, x
+    t = MULF(x, y)
+    i = t.get_id()
+    if i not in _BCACHE:
+        _MUL_TERMS.append((t, x, y))
+        a, b = ibounds(x), ibounds(y)
+        r = None
+        if a is not None and b is not None:
+            ps = [a[0] * b[0], a[0] * b[1], a[1] * b[0], a[1] * b[1]]
+            r = (min(ps), max(ps))
+        _BCACHE[i] = (t, r)
+        if r is not None and _CUR[0] is not None:
+            _CUR[0].assume(z3.And(t >= r[0], t <= r[1]))
+    return t
+
+
+_CUR = [None]
+_MUL_TERMS = []      # (mul(x, y), x, y) applications created on the current path
 
 
 def ibounds(t):
@@ -627,6 +660,8 @@ class Interp:
         self.max_blocks = 50_000_000
         _BOUNDS.clear()
         _BCACHE.clear()
+        del _MUL_TERMS[:]
+        _CUR[0] = self
 
     # ---- solver plumbing
     def _check(self, extra=None):
@@ -889,6 +924,10 @@ class Interp:
         if name in self.overrides:
             return self.overrides[name](self)
         sn = strip_generics(name)
+        suffix = [k for k in self.prog.consts if sn == k or sn.endswith('::' + k)]
+        if suffix:
+            k = max(suffix, key=len)
+            return self.const(mir.parse_operand(self.prog.consts[k])[1])
         for cand in (name, sn, sn.split('::')[-1]):
             if cand in self.prog.consts:
                 return self.const(mir.parse_operand(self.prog.consts[cand])[1])
@@ -1077,7 +1116,7 @@ class Interp:
             if l2 is not None and l2 >= lo and h2 <= hi:
                 return SInt(v.t, ty)
             return SInt(wrap(v.t, ty), ty)
-        if kind in ('Transmute', 'PtrToPtr', 'FnPtrToPtr') or kind.startswith('PointerCoercion(ReifyFnPointer') \
+        if kind in ('Transmute', 'PtrToPtr', 'FnPtrToPtr', 'Subtype') or kind.startswith('PointerCoercion(ReifyFnPointer') \
                 or kind.startswith('PointerCoercion(ClosureFnPointer') or kind.startswith('PointerCoercion(MutToConstPointer') \
                 or kind.startswith('PointerCoercion(UnsafeFnPointer'):
             return v
@@ -1127,7 +1166,7 @@ class Interp:
         cc = isinstance(x, int) and isinstance(y, int)
         if op.endswith('WithOverflow'):
             base = op[:-12]
-            wide = x + y if base == 'Add' else x - y if base == 'Sub' else x * y
+            wide = x + y if base == 'Add' else x - y if base == 'Sub' else sym_mul(x, y)
             ir = in_range(wide, ty)
             ovf = (not ir) if isinstance(ir, bool) else z3.Not(ir)
             return Agg('()', [Cell(SInt(wrap(wide, ty), ty)), Cell(ovf)])
@@ -1136,7 +1175,7 @@ class Interp:
         if op in ('Sub', 'SubUnchecked'):
             return SInt(wrap(x - y, ty), ty)
         if op in ('Mul', 'MulUnchecked'):
-            return SInt(wrap(x * y, ty), ty)
+            return SInt(wrap(sym_mul(x, y), ty), ty)
         if op == 'Eq':
             return x == y
         if op == 'Ne':
